@@ -111,6 +111,19 @@ def cells_c06(prop, fe, spec, pk, sh, stats, res, ntrail):
             f.symptom = ('registered:' if reg else 'unregistered:') + f.symptom
             if f.construct.startswith('checksum') or f.construct == 'packet':
                 res.append(f)
+    # the registry is consulted when a message is encoded, not when its class was loaded: the service registered (or removed)
+    # AFTER the emitted classes ran their static initialisers (Java)
+    if hasattr(fe, 'cks_at_init') and sh.s == 1 and not sh.salt:
+        for reg in (True, False):
+            fe.cks_at_init = not reg
+            try:
+                for f in pipea.run_c01(fe, spec, pk, sh, [], stats, cks_registered=reg):
+                    f.prop = prop
+                    f.symptom = ('registered-after-load:' if reg else 'removed-after-load:') + f.symptom
+                    if f.construct.startswith('checksum') or f.construct == 'packet':
+                        res.append(f)
+            finally:
+                fe.cks_at_init = None
 
 
 def cells_c04(prop, fe, spec, pk, sh, stats, res, ntrail):
@@ -288,7 +301,25 @@ def run_c05(fe, spec, pk, sh, stats):
     idx_m = pk.fields.index(mf)
     pre_fields = pk.fields[:idx_m]
     from .pspec import Packet
-    prepk = Packet(pk.name, pre_fields)
+    # a length-of field in front of the match travels as a plain number here: the peer chooses it.  It is assumed consistent
+    # with the table (the byte count of the packet the key selects; anything for a key outside the table)
+    asm = list(asm)
+    wire_pre = []
+    for f in pre_fields:
+        if f.kind == 'lengthof':
+            g = f.clone(kind='basic')
+            wl = z3.BitVec('wirelen', 8 * WIDTH[spec.resolve(f)[1]])
+            msg.v[f.name] = wl
+            if not isinstance(keyval_of(msg, mf), list):
+                kv = keyval_of(msg, mf)
+                for k, pn in table.items():
+                    sz = fixed_size(spec, spec.packet(pn))
+                    if sz is not None:
+                        asm.append(z3.Implies(kv == z3.BitVecVal(int(k) & ((1 << kv.size()) - 1), kv.size()), wl == sz))
+            wire_pre.append(g)
+        else:
+            wire_pre.append(f)
+    prepk = Packet(pk.name, wire_pre)
     premsg = Msg(prepk)
     for f in pre_fields:
         premsg.v[f.name] = msg.v[f.name]
@@ -340,6 +371,21 @@ def run_c05(fe, spec, pk, sh, stats):
         elif v.status == 'unknown':
             raise Unsupported('solver unknown')
     return res
+
+
+def keyval_of(msg, mf):
+    return msg.v[mf.key]
+
+
+def fixed_size(spec, packet):
+    """byte count of a packet made of scalars only (None otherwise)"""
+    n = 0
+    for f in packet.fields:
+        sem = spec.resolve(f)
+        if f.repeat or sem[0] != 'basic':
+            return None
+        n += WIDTH[sem[1]]
+    return n
 
 
 def key_in(keyval, keys):
